@@ -290,7 +290,12 @@ def tempfile_decorator(func):
             except Exception as e:
                 raise e
             finally:
-                os.unlink(f.name)
+                # the file is already gone if (re)creating it failed: that must not
+                # replace the error that is propagating
+                try:
+                    os.unlink(f.name)
+                except FileNotFoundError:
+                    pass
 
         else:
             # FIXME: it's a string, so it's probably a filename, but we should
